@@ -43,6 +43,28 @@ let run_case toks obs =
                        else Printf.sprintf "PROPFAIL %s sig=roundtrip decompress(compress(x)) failed" id
             | "compress-error" -> Printf.sprintf "PROPFAIL %s sig=roundtrip compress failed" id
             | r -> Printf.sprintf "MISMATCH %s unexpected result %s" id r))
+  | "e2e" :: id :: rest ->
+      let k = parse_kv rest in
+      (match Hashtbl.find_opt obs id with
+       | None -> Printf.sprintf "MISMATCH %s no-observation" id
+       | Some ot ->
+           let okv = parse_kv (List.tl (List.tl ot)) in
+           if kv "panic" okv <> "" then Printf.sprintf "PROPFAIL %s sig=panic a compressed or plain call between two transports of the package panicked: %s" id (kv "panic" okv)
+           else if kv "setup" okv <> "" then Printf.sprintf "MISMATCH %s could not set up a loopback pair: %s" id (kv "setup" okv)
+           else begin
+             let plain = kv "plain" okv and comp = kv "comp" okv and follow = kv "followup" okv in
+             let hargs = split_on '~' (kv "hargs" okv) in
+             let known = kv "method" k = "known" in
+             let canon v = Values.print (Values.parse v) in
+             let want_arg = if kv "arg" k = "-" || kv "arg" k = "" then "n" else canon (kv "arg" k) in
+             if plain <> comp then
+               Printf.sprintf "PROPFAIL %s sig=compression-not-transparent:e2e:ctype-%s the same call returned (error~result) %s uncompressed and %s compressed" id (kv "ctype" k) plain comp
+             else if follow <> plain then
+               Printf.sprintf "PROPFAIL %s sig=compression-not-transparent:e2e-followup:ctype-%s after the compressed call the same uncompressed call returned %s instead of %s (connection damaged?)" id (kv "ctype" k) follow plain
+             else if known && (List.length hargs <> 3 || List.exists (fun a -> canon a <> want_arg) hargs) then
+               Printf.sprintf "PROPFAIL %s sig=compression-not-transparent:e2e-arg:ctype-%s the handler received %s for the argument %s" id (kv "ctype" k) (String.concat "," hargs) want_arg
+             else Printf.sprintf "AGREE %s nontrivial" id
+           end)
   | "pool" :: id :: _ ->
       (match Hashtbl.find_opt obs id with
        | None -> Printf.sprintf "MISMATCH %s no-observation" id
